@@ -2,6 +2,7 @@
    Used identically by the extracted OCaml driver and by [Eval vm_compute]. *)
 From MPD Require Import Bytes Tables Show TagModel TagSpec DriverCmd DriverConn DriverFrame DriverLoop.
 From MPD Require Import Bytes Tables Show TagModel TagSpec DriverCmd DriverConn DriverFrame DriverSong.
+From MPD Require Import Bytes Tables Show TagModel TagSpec DriverCmd DriverConn DriverFrame DriverCommands.
 Open Scope N_scope.
 
 Definition find_tagv (ident : bytes) : option tagv :=
@@ -95,6 +96,7 @@ Definition dispatch (line : bytes) : bytes :=
     else if is_frame_kind kind then run_frame kind args
     else if is_loop_kind kind then run_loop_kind kind args
     else if is_song_kind kind then run_songs kind args
+    else if is_commands_kind kind then run_commands kind args
     else b "unknown-kind " ++ kind
   | [] => b "empty"
   end.
